@@ -95,20 +95,11 @@ Section Vocabulary.
   Definition arg_ok (ea : expr * aarg) : Prop :=
     match snd ea with ALit v => fst ea = ELit v /\ lit_ok v | ARun => True end.
 
-  (* g(e...): the analysis of a plain call never looks at the arguments: a parameter with a default is analysed as
-     bound to its default.  FINDING (stale result on the real library, see [plain_call_default_refuted]): an explicit
-     argument for such a parameter is invisible in the signature.  The hypothesis: it is the default itself. *)
-  Fixpoint call_args_ok (ps : list param) (args : list expr) : Prop :=
-    match ps, args with
-    | p :: ps', e :: args' =>
-      match p_default p with Some d => e = ELit d | None => True end /\ call_args_ok ps' args'
-    | _, _ => True
-    end.
-
+  (* g(e...): since fix F30 the analysis marks the parameters that a plain call binds explicitly as unknown (Sig.unbind):
+     they are covered by the call-site context like the run-time arguments of a keep; nothing is asked of a plain call. *)
   Definition wf_step (cs : list (option fn)) (s : step) : Prop :=
     match s with
-    | SCall _ _ g args => call_args_ok (fn_params g) args
-    | SRef _ _ _ => True
+    | SCall _ _ _ _ | SRef _ _ _ => True
     | SApply g => exists j, find_name (fn_name g) cs = Some j /\ nth_error cs j = Some (Some g)
     | SKeep _ _ _ g pos kw => Forall arg_ok pos /\ Forall (fun nk => arg_ok (snd nk)) kw
     | SLoad _ => True
@@ -150,7 +141,8 @@ Section Vocabulary.
     end.
   Definition site_named (s : step) : actx_err + list (bytes * option bytes) :=
     match s with
-    | SCall _ _ g _ | SRef _ g _ => scallee_ctx_plain hv g
+    | SCall _ _ g args => scallee_ctx_plain hv g (List.length args)
+    | SRef _ g _ => scallee_ctx_plain hv g 0
     | SKeep _ _ _ g pos kw => sarg_ctx_ast hv (fn_params g) 0 (map snd pos) (map (fun nk => (fst nk, snd (snd nk))) kw)
     | SApply _ | SLoad _ => inl AEMissing
     end.
